@@ -41,7 +41,7 @@ def with_metadata(root, rnd):
     md = Node("metadata")
     am.add_child(md)
     root.add_child(am)
-    for _ in range(rnd.choice([0, 1, 1, 2])):          # two children under metadata is itself invalid
+    for _ in range(rnd.choice([0, 1, 1, 2, 3])):       # more than one child under metadata is itself invalid
         j = Node(rnd.choice(["zzForeign", "dataset", "unitList"]), content=rnd.choice([None, "text", ""]))
         j.add_attribute("zzWhatever", "1")
         k = Node(rnd.choice(["title", "zzInner"]), content=None)
@@ -148,10 +148,10 @@ def run(rep, tier, seed):
     for rj in rejects:
         e = evs[rj["event"] - 1]
         for cl in rj["clauses"]:
-            if cl.startswith(("tree-errors", "tree-failfast")):
+            if cl.startswith(("tree-errors", "tree-failfast", "metadata-outcome")):
                 rep.violation(f"{PID}:{cl}", f"{cl}: tree errors {e['coll'][:8]} vs per-node errors {[(i + 1, x) for i, x in enumerate(e['nodeErrs']) if x][:8]}; ff {e['ff']}",
                               {"kind": "tree", "desc": e["desc"], "event": strip(e)})
-    rep.notes["events_with_C04_only_clauses"] = sum(1 for rj in rejects if not any(c.startswith(("tree-errors", "tree-failfast")) for c in rj["clauses"]))
+    rep.notes["events_with_C04_only_clauses"] = sum(1 for rj in rejects if not any(c.startswith(("tree-errors", "tree-failfast", "metadata-outcome")) for c in rj["clauses"]))
     rep.sample({"desc": evs[0]["desc"], "nodes": len(evs[0]["name"]), "tree_errors": evs[0]["coll"][:6]})
     rep.cov["evaluations"] = sum(len(e["name"]) for e in evs)
     rep.cov["distinct_nontrivial"] = len({str(e["desc"]) for e in evs})
